@@ -28,6 +28,7 @@ type Opt16 struct {
 	Str   string `json:"str,omitempty"` // default-scheme value, added special scheme name
 	Port  string `json:"port,omitempty"`
 	Sort  int    `json:"sort,omitempty"`
+	Pad   int    `json:"pad,omitempty"` // special-schemes: that many further schemes in the table (it is the caller's map, of any size)
 }
 
 type Case16 struct {
@@ -59,8 +60,11 @@ func (o Opt16) set() *url.PercentEncodeSet {
 	return s
 }
 
-func withAddedScheme(name, port string) map[string]string {
+func withAddedScheme(name, port string, pad int) map[string]string {
 	m := map[string]string{"ftp": "21", "file": "", "http": "80", "https": "443", "ws": "80", "wss": "443"}
+	for i := 0; i < pad; i++ {
+		m[fmt.Sprintf("%c%d", 'a'+i%26, i)] = strconv.Itoa(1000 + i)
+	}
 	m[name] = port
 	return m
 }
@@ -78,7 +82,7 @@ func (o Opt16) option() url.ParserOption {
 	case "skip-drive":
 		return url.WithSkipWindowsDriveLetterNormalization()
 	case "special-schemes":
-		return url.WithSpecialSchemes(withAddedScheme(o.Str, o.Port))
+		return url.WithSpecialSchemes(withAddedScheme(o.Str, o.Port, o.Pad))
 	case "lax-host":
 		return url.WithLaxHostParsing()
 	case "skip-equals":
@@ -1290,6 +1294,7 @@ func Gen16(t *rapid.T) Case16 {
 		c.Opts = []Opt16{{Name: "skip-equals"}}
 	case "special-scheme-effect":
 		o := Opt16{Name: "special-schemes", Str: gen.Pick(t, "newscheme", []string{"gopher", "foo", "zz", "http", "ws", "ftp", "wss"}), Port: gen.Pick(t, "newport", []string{"70", "1234", ""})}
+		o.Pad = rapid.SampledFrom([]int{0, 0, 0, 1, 2, 3, 9, 10, 26, 58, 250}).Draw(t, "tablepad")
 		c.Opts = []Opt16{o}
 		host := gen.Pick(t, "host", []string{"h", "example.com", "EXAMPLE.com", "1.2.3.4", "0x7f.1", "[::1]", "a b", ""})
 		port := gen.Pick(t, "port", []string{"", ":{DP}", ":81", ":", ":0{DP}", ":0", ":00"})
@@ -1311,6 +1316,20 @@ func Gen16(t *rapid.T) Case16 {
 func genOrderQuery(t *rapid.T) string {
 	prefix := gen.Pick(t, "oprefix", []string{"a", "", "k", "a+", "ab"})
 	tails := []string{"*", "+", "!", "+b", "(x", "", "-", ",", "$", ")", "+*", "*+", ".", "a", "+a", "%20", "%2B"}
+	if rapid.IntRange(0, 3).Draw(t, "obytes") == 0 {
+		// name and value compared as one string: a UTF-8 sequence split across the '=' (and its neighbours in the order)
+		prefix = "k"
+		tails = []string{"%C3=%A9", "%C3%A9=", "=%C3%A9", "%EF%BF%BD=", "%C3=", "z=", "%C3%AA=", "%C3=%A9%C3", "=", "%E6%97=%A5"}
+		n := rapid.IntRange(2, 5).Draw(t, "onames")
+		if rapid.IntRange(0, 2).Draw(t, "olong") == 0 {
+			n = rapid.SampledFrom([]int{63, 64, 65, 70, 128}).Draw(t, "olen")
+		}
+		var parts []string
+		for i := 0; i < n; i++ {
+			parts = append(parts, prefix+gen.Pick(t, "otail", tails))
+		}
+		return strings.Join(parts, "&")
+	}
 	n := rapid.IntRange(2, 5).Draw(t, "onames")
 	var parts []string
 	for i := 0; i < n; i++ {
@@ -1321,6 +1340,9 @@ func genOrderQuery(t *rapid.T) string {
 
 func genLongQuery(t *rapid.T) string {
 	n := rapid.IntRange(8, 40).Draw(t, "nparams")
+	if rapid.IntRange(0, 3).Draw(t, "verylong") == 0 {
+		n = gen.SizeSteps[rapid.IntRange(0, len(gen.SizeSteps)-1).Draw(t, "nparamsStep")]
+	}
 	names := []string{"b", "a", "c", "b", "a", "d", "B", "aa"}
 	var parts []string
 	for i := 0; i < n; i++ {
